@@ -45,6 +45,7 @@ fn trait_name(chain: &str) -> &'static str {
         "bounds" => "BLedger",
         "futs" => "FLedger",
         "recv" => "RLedger",
+        "big" => "GLedger",
         _ => "ArgInterfaceV2",
     }
 }
@@ -319,7 +320,7 @@ fn exec(h: &History, revs: &[Rev]) -> HistOut {
 
 fn gen_history(seed: u64, revs: &[Rev], thorough: bool) -> History {
     let mut rng = Rng::new(seed);
-    let chain = *rng.pick(&["plain", "plain", "async", "objs", "objs", "argv2", "bounds", "futs", "recv"]);
+    let chain = *rng.pick(&["plain", "plain", "async", "objs", "objs", "argv2", "bounds", "futs", "recv", "big"]);
     let members: Vec<&Rev> = revs.iter().filter(|r| r.chain == chain).collect();
     let good: Vec<&&Rev> = members.iter().filter(|r| !r.name.contains("_b_")).collect();
     let n = rng.range(1, 6);
@@ -489,7 +490,7 @@ fn fixed_or_seeded(i: u64, seed: u64, revs: &[Rev], thorough: bool) -> History {
     for name in ["argv2", "argv2_next", "argv2_b_enum_arg"] {
         fixed.push(History { chain: "argv2".into(), start: "earlier-build".into(), runs: vec![name.into(), name.into(), "argv2".into()], fresh_process: false, seed: 0 });
     }
-    for chain in ["plain", "async", "objs", "argv2", "bounds", "futs", "recv"] {
+    for chain in ["plain", "async", "objs", "argv2", "bounds", "futs", "recv", "big"] {
         let m: Vec<&Rev> = revs.iter().filter(|r| r.chain == chain).collect();
         for a in &m {
             for b in &m {
